@@ -173,7 +173,11 @@ def enumerate_faults(m, doc, rng, charset, icvn, kinds=None, alphabet=None):
                 is_time = el.dtype == 'TM' or (ft and 'TM' in ft)
                 if 'bad_date' in kinds and is_date:
                     types = ([el.dtype] if el.dtype in V.DATE_TYPES else []) + (ft or [])
-                    for cand in ['20041301', '20040231', '99999999', '041301', '999999', '20041301-20040101', '200413011200']:
+                    cands = ['20041301', '20040231', '99999999', '041301', '999999', '20041301-20040101', '200413011200']
+                    if rng.random() < 0.5:
+                        # a value that is a member of *another* date/time format than the declared one(s)
+                        cands = ['20040101-20040105', '1230', '040101', '123045'] + cands
+                    for cand in cands:
                         if el.min_len <= len(cand) <= el.max_len and not any(V.is_member(cand, t, charset, icvn) for t in types):
                             if el.dtype in ('AN', 'ID') and not V.is_member(cand, el.dtype, charset, icvn):
                                 continue
